@@ -201,23 +201,23 @@ example :
 
 /-! ## "input not declared by the child definition is passed on as execution parameters" -/
 
-/-- undeclared_input_becomes_params, exact characterisation of `splitInput` (python dict: keys unique):
+/-- undeclared_input_becomes_params, exact characterisation of the move (python dict: keys unique):
     the child's params hold, for every key, the value of the undeclared input key of that name if there
     is one, else what the engine had assigned (`base`); the child's input keeps exactly the declared
-    keys.  Nothing is dropped, and an undeclared key OVERWRITES a reserved parameter of the same name. -/
+    keys.  Nothing is dropped. -/
 theorem undeclared_input_becomes_params (declared : List String) (input base : Dict) (k : String)
     (hn : (input.map (·.1)).Nodup) :
-    Dict.get? (splitInput declared input base).2 k =
+    Dict.get? (moveUndeclared declared input base).2 k =
       (if k ∈ declared then Dict.get? base k
        else match Dict.get? input k with
          | some v => some v
          | none => Dict.get? base k) ∧
-    Dict.get? (splitInput declared input base).1 k =
+    Dict.get? (moveUndeclared declared input base).1 k =
       (if k ∈ declared then Dict.get? input k else none) := by
   constructor
   · exact split_params_fold declared input (input, base) k hn
   · have := split_input_fold declared input (input, base) k
-    simp only [splitInput]
+    simp only [moveUndeclared]
     rw [this]
     by_cases hd : k ∈ declared
     · simp [hd]
@@ -228,39 +228,67 @@ theorem undeclared_input_becomes_params (declared : List String) (input base : D
 /-- nothing is dropped: every input pair ends in exactly one of the two dictionaries, with its value -/
 theorem split_is_partition (declared : List String) (input base : Dict) (k : String) (v : Val)
     (hn : (input.map (·.1)).Nodup) (h : (k, v) ∈ input) :
-    (k ∈ declared → Dict.get? (splitInput declared input base).1 k = some v) ∧
-    (k ∉ declared → Dict.get? (splitInput declared input base).2 k = some v ∧
-                     Dict.get? (splitInput declared input base).1 k = none) := by
+    (k ∈ declared → Dict.get? (moveUndeclared declared input base).1 k = some v) ∧
+    (k ∉ declared → Dict.get? (moveUndeclared declared input base).2 k = some v ∧
+                     Dict.get? (moveUndeclared declared input base).1 k = none) := by
   have hg := get?_some_of_mem input k v hn h
   have := undeclared_input_becomes_params declared input base k hn
   constructor
   · intro hd; rw [this.2]; simp [hd, hg]
   · intro hd; rw [this.1, this.2]; simp [hd, hg]
 
-/-- reserved parameters survive when no undeclared input key has their name (the excluded inputs: an
-    undeclared key named like a parameter the engine sets) -/
-theorem reserved_params_kept_partial (declared : List String) (input base : Dict) (r : String)
+/-- a parameter the engine assigned survives the move when no undeclared input key has its name -/
+theorem move_keeps_unshadowed (declared : List String) (input base : Dict) (r : String)
     (hn : (input.map (·.1)).Nodup) (hfree : r ∈ declared ∨ r ∉ input.map (·.1)) :
-    Dict.get? (splitInput declared input base).2 r = Dict.get? base r := by
+    Dict.get? (moveUndeclared declared input base).2 r = Dict.get? base r := by
   rw [(undeclared_input_becomes_params declared input base r hn).1]
   rcases hfree with hd | hm
   · simp [hd]
   · simp [get?_none_of_not_mem_keys input r hm]
 
-/-- ... and the full statement fails: an undeclared input key `namespace` replaces the caller's namespace
-    (same for root_execution_id, task_execution_id, index, notify).  Replayed on the engine: finding
-    `undeclared-input-shadows-reserved-param`. -/
-theorem reserved_params_kept_full_fails :
-    ¬ (∀ (declared : List String) (input base : Dict) (r : String), (input.map (·.1)).Nodup →
-        Dict.get? (splitInput declared input base).2 r = Dict.get? base r) := by
-  intro h
-  have := h ["x"] [("x", .num 1), ("namespace", .str "zz")] [("namespace", .str "")] "namespace" (by decide)
-  have hv : Dict.get? (splitInput ["x"] [("x", .num 1), ("namespace", .str "zz")]
-      [("namespace", .str "")]).2 "namespace" = some (.str "zz") := by rfl
-  rw [hv] at this
-  have hb : Dict.get? ([("namespace", Val.str "")] : Dict) "namespace" = some (.str "") := by rfl
-  rw [hb] at this
-  simp at this
+/-- the loop is the move unless an undeclared key has a reserved name, in which case it is refused with
+    the declared InputException (the task fails; nothing is started, nothing silently dropped) -/
+theorem split_refuses_iff (declared : List String) (input base : Dict) :
+    (collides declared input = true → splitInput declared input base = .error .inputError) ∧
+    (collides declared input = false →
+      splitInput declared input base = .ok (moveUndeclared declared input base)) := by
+  unfold splitInput
+  constructor <;> intro h <;> simp [h]
+
+/-- reserved_params_kept (full, after fix f99833f3): for EVERY input either the schedule is refused with
+    the declared error or the four parameters linking the child to its parent are the engine's. -/
+theorem reserved_params_kept (declared : List String) (input base : Dict)
+    (hn : (input.map (·.1)).Nodup) :
+    splitInput declared input base = .error .inputError ∨
+    (splitInput declared input base = .ok (moveUndeclared declared input base) ∧
+      ∀ r ∈ reservedKeys, Dict.get? (moveUndeclared declared input base).2 r = Dict.get? base r) := by
+  cases hc : collides declared input with
+  | true => left; exact (split_refuses_iff declared input base).1 hc
+  | false =>
+    right
+    refine ⟨(split_refuses_iff declared input base).2 hc, ?_⟩
+    intro r hr
+    apply move_keeps_unshadowed declared input base r hn
+    by_cases hm : r ∈ input.map (·.1)
+    · left
+      obtain ⟨kv, hkv, hk⟩ := List.mem_map.1 hm
+      have hall := List.any_eq_false.1 hc kv hkv
+      subst hk
+      have hres : kv.1 ∈ reservedKeys := hr
+      have hall' : ¬ kv.1 ∈ declared → ¬ kv.1 ∈ reservedKeys := by simpa using hall
+      exact Classical.byContradiction (fun hnd => hall' hnd hres)
+    · right; exact hm
+
+/-- non-vacuity: both outcomes occur -/
+example : splitInput ["x"] [("x", .num 1), ("namespace", .str "zz")] [("namespace", .str "")]
+    = .error .inputError := by rfl
+example : (splitInput ["x"] [("x", .num 1), ("extra", .num 5)] [("namespace", .str "")]).toOption.map
+    (fun r => (r.1.map (·.1), r.2.map (·.1))) = some (["x"], ["namespace", "extra"]) := by rfl
+
+/-- the refused names are those of the source (Tie A) and exactly the link parameters -/
+theorem reserved_keys_match_source : reservedKeys = Gen.SubWfFacts.reservedInputKeys := by decide
+
+theorem reserved_keys_are_base_keys : reservedKeys = baseKeys := by decide
 
 /-- the keys the engine assigns before the undeclared keys are moved are those of the source (Tie A) -/
 theorem base_keys_match_source : baseKeys = Gen.SubWfFacts.scheduleBaseKeys := by decide
@@ -299,14 +327,12 @@ theorem base_params_get (pp : Dict) (rootId tid : String) (index : Nat) (base : 
     · cases h
       exact ⟨rfl, rfl, rfl, by rw [hns]; rfl, by simp [hns]⟩
 
-/-- what the child row records when no undeclared key collides: the root from `rootOf`, the caller's
-    task, the caller's namespace (in-process start; through the message bus the definition's namespace
-    replaces it when non-empty, which is the caller's namespace or the default one by the lookup rule). -/
-theorem child_row_records_caller_partial (pp : Dict) (pr : Option String) (pid tid : String) (index : Nat)
+/-- child_row_records_caller (full, after fix f99833f3): whenever the in-process schedule produces a child
+    row at all, the row records the root from `rootOf`, the caller's task, the item index and the caller's
+    namespace, for EVERY input (an input that would overwrite them is refused, `reserved_params_kept`). -/
+theorem child_row_records_caller (pp : Dict) (pr : Option String) (pid tid : String) (index : Nat)
     (declared : List String) (input : Dict) (defNs : String) (rec : ExecRec)
     (hn : (input.map (·.1)).Nodup)
-    (hfree : ∀ r ∈ ["root_execution_id", "task_execution_id", "index", "namespace"],
-      r ∈ declared ∨ r ∉ input.map (·.1))
     (h : schedule pp pr pid tid index declared input false defNs = .ok rec) :
     rec.rootExecId = .str (rootOf pr pid) ∧ rec.taskExecId = .str tid ∧ rec.index = .num index ∧
     Dict.get? rec.params "namespace" = Dict.get? pp "namespace" := by
@@ -315,22 +341,44 @@ theorem child_row_records_caller_partial (pp : Dict) (pr : Option String) (pid t
   | error e => simp [hb, bind, Except.bind] at h
   | ok base =>
     obtain ⟨b1, b2, b3, b4, b5⟩ := base_params_get pp _ tid index base hb
-    have k1 := reserved_params_kept_partial declared input base "root_execution_id" hn (hfree _ (by simp))
-    have k2 := reserved_params_kept_partial declared input base "task_execution_id" hn (hfree _ (by simp))
-    have k3 := reserved_params_kept_partial declared input base "index" hn (hfree _ (by simp))
-    have k4 := reserved_params_kept_partial declared input base "namespace" hn (hfree _ (by simp))
-    have hhas : Dict.has (splitInput declared input base).2 "namespace" = true := by
-      simp only [Dict.has, k4, b4]; exact b5
-    simp only [hb, bind, Except.bind, startParams, hhas, if_true, Bool.false_eq_true, if_false] at h
-    unfold createExecution at h
-    cases he : getEnvironment (splitInput declared input base).2 with
-    | error e => simp [he, bind, Except.bind] at h
-    | ok env =>
-      simp only [he, bind, Except.bind, pure, Except.pure] at h
-      cases h
-      refine ⟨by simp [k1, b1], by simp [k2, b2], by simp [k3, b3], ?_⟩
-      simp only []
-      rw [Dict.get?_set_other _ _ _ _ (by decide), k4, b4]
+    rcases reserved_params_kept declared input base hn with hs | ⟨hs, hk⟩
+    · simp [hb, hs, bind, Except.bind] at h
+    · have k1 := hk "root_execution_id" (by decide)
+      have k2 := hk "task_execution_id" (by decide)
+      have k3 := hk "index" (by decide)
+      have k4 := hk "namespace" (by decide)
+      have hhas : Dict.has (moveUndeclared declared input base).2 "namespace" = true := by
+        simp only [Dict.has, k4, b4]; exact b5
+      simp only [hb, hs, bind, Except.bind, startParams, hhas, if_true, Bool.false_eq_true, if_false] at h
+      unfold createExecution at h
+      cases he : getEnvironment (moveUndeclared declared input base).2 with
+      | error e => simp [he, bind, Except.bind] at h
+      | ok env =>
+        simp only [he, bind, Except.bind, pure, Except.pure] at h
+        cases h
+        refine ⟨by simp [k1, b1], by simp [k2, b2], by simp [k3, b3], ?_⟩
+        simp only []
+        rw [Dict.get?_set_other _ _ _ _ (by decide), k4, b4]
+
+/-- the input the fix refuses: no child row, a declared error (before the fix: a row with namespace zz) -/
+example : (schedule [("namespace", .str "")] none "P" "T" 0 ["x"]
+    [("x", .num 1), ("namespace", .str "zz")] false "").toOption.isNone = true := by rfl
+
+/-- STILL DEVIATING (known finding `rpc-start-keyword-clash`): "undeclared input never prevents the start"
+    fails through the message bus ... -/
+theorem rpc_start_total_full_fails :
+    ¬ (∀ (defNs : String) (params : Dict), ∃ p, startParams true defNs params = .ok p) := by
+  intro h
+  obtain ⟨p, hp⟩ := h "" [("description", .str "d")]
+  revert hp; simp [startParams, rpcKeywords]
+
+/-- ... and holds when no parameter is named like a keyword of `EngineClient.start_workflow` -/
+theorem rpc_start_total_partial (defNs : String) (params : Dict)
+    (h : params.any (fun kv => rpcKeywords.contains kv.1) = false) :
+    ∃ p, startParams true defNs params = .ok p := by
+  unfold startParams
+  rw [h]
+  exact ⟨_, rfl⟩
 
 /-- non-vacuity of the hypotheses: an undeclared `extra` and an undeclared `env` go to params, the reserved
     ones stay -/
@@ -356,15 +404,18 @@ theorem rpc_keyword_clash (defNs : String) (params : Dict) :
 
 /-! ## "by name, workbook-relative name or expression": resolve_workflow_definition -/
 
-/-- resolve_name_correct_partial: when the parent's spec name contains no '.', `rstrip` + `[:-1]` returns
-    the workbook name, so the names looked up are `wb.child` then `child`. -/
-theorem resolve_name_correct_partial (wb spec child : List Char) (hdot : '.' ∉ spec) :
+/-- resolve_name_correct (full, after fix 52ef6286): for EVERY workbook name, parent spec name (dots
+    included) and child name, a parent stored as `wb.spec` looks up `wb.child`, then `child`. -/
+theorem resolve_name_correct (wb spec child : List Char) :
     wbNameOf (fullName wb spec) spec = wb ∧
     candidates (fullName wb spec) spec child = intendedCandidates wb child := by
   have h1 : wbNameOf (fullName wb spec) spec = wb := by
     unfold wbNameOf fullName
-    rw [rstrip_suffix wb spec hdot]
-    simp
+    have h : ('.' :: spec).isSuffixOf (wb ++ '.' :: spec) = true :=
+      List.isSuffixOf_iff_suffix.2 (List.suffix_append wb ('.' :: spec))
+    rw [if_pos h]
+    have : (wb ++ '.' :: spec).length - spec.length - 1 = wb.length := by simp; omega
+    rw [this]; simp
   refine ⟨h1, ?_⟩
   have hne : (fullName wb spec != spec) = true := by
     have : fullName wb spec ≠ spec := by
@@ -375,29 +426,24 @@ theorem resolve_name_correct_partial (wb spec child : List Char) (hdot : '.' ∉
     simpa using this
   simp only [candidates, hne, if_true, h1, intendedCandidates, List.singleton_append]
 
-/-- resolve_name_full_fails (candidate defect J): `rstrip` strips a character SET; with a '.' in the
-    parent's spec name it eats the separator and the tail of the workbook name: workbook `wb`, workflow
-    `a.b`, child `c` looks up `.c` instead of `wb.c`.  Replayed on the engine (needs definition validation
-    to be skipped, see `workbook_wf_names_dotless`). -/
-theorem resolve_name_full_fails :
-    ¬ (∀ (wb spec child : List Char),
-        candidates (fullName wb spec) spec child = intendedCandidates wb child) := by
-  intro h
-  have := h "wb".toList "a.b".toList "c".toList
-  revert this; decide
+/-- the former counter-witness (workbook `wb`, workflow `a.b`, child `c`) now resolves inside the workbook -/
+example : candidates "wb.a.b".toList "a.b".toList "c".toList = ["wb.c".toList, "c".toList] := by decide
 
-/-- Tie A: the pattern a workflow name inside a workbook must match admits no '.', so every VALIDATED
-    workbook satisfies the hypothesis of `resolve_name_correct_partial` ... -/
+/-- the old expression survives only on the branch where the execution name does not end with
+    "." ++ spec name (never the case for a workbook workflow); there it still is a character-set strip,
+    correct when the spec name has no '.' -/
+theorem old_rstrip_branch (wb spec : List Char) (hdot : '.' ∉ spec) :
+    (rstripChars (fullName wb spec) spec).dropLast = wb := by
+  unfold fullName
+  rw [rstrip_suffix wb spec hdot]
+  simp
+
+/-- Tie A: the pattern a workflow name inside a workbook must match admits no '.' (so before the fix only
+    unvalidated definitions were affected) -/
 theorem workbook_wf_names_dotless : '.' ∉ Gen.SubWfFacts.workbookWfNameChars := by decide
 
 /-- ... and validation is mandatory by default -/
 theorem validation_mandatory_by_default : Gen.SubWfFacts.validationMandatoryByDefault = true := by decide
-
-theorem resolve_name_correct_for_validated (wb spec child : List Char)
-    (hval : ∀ c ∈ spec, c ∈ Gen.SubWfFacts.workbookWfNameChars) :
-    candidates (fullName wb spec) spec child = intendedCandidates wb child :=
-  (resolve_name_correct_partial wb spec child
-    (fun hd => workbook_wf_names_dotless (hval _ hd))).2
 
 /-- a standalone parent (execution name = spec name) looks up the global name only -/
 theorem resolve_standalone (spec child : List Char) : candidates spec spec child = [child] := by
@@ -429,6 +475,6 @@ theorem resolve_workbook_first (defs : List (List Char × String)) (ns : String)
 example : resolve [("wb.c".toList, ""), ("c".toList, "")] "wb.w1".toList "w1".toList "" "c".toList
     = some ("wb.c".toList, "") := by decide
 example : resolve [("wb.c".toList, ""), ("c".toList, "")] "wb.a.b".toList "a.b".toList "" "c".toList
-    = some ("c".toList, "") := by decide
+    = some ("wb.c".toList, "") := by decide
 
 end Mistral.Props.C09
